@@ -119,7 +119,13 @@ def gen_case(rng):
         else:
             ops.append(['buffer', rng.choice([1, 2, 5])])
     n = rng.randrange(3, 15)
-    inputs = [[rng.randrange(2) if two else 0, rng.randrange(6)] for _ in range(n)]
+    inputs, lead = [], 0
+    for _ in range(n):
+        e = rng.randrange(2) if two else 0
+        if two and abs(lead + (1 if e == 0 else -1)) > 8:
+            e = 1 - e           # a zip holds its (sequentially awaiting) producer back once an input is 10 ahead: stay below
+        lead += 1 if e == 0 else -1
+        inputs.append([e, rng.randrange(6)])
     # the consumer behind gather(): plain function, or a coroutine function that takes longer for smaller values (so that
     # elements overtake each other in it if gather() does not wait for it)
     return {'ops': ops, 'inputs': inputs, 'salt': rng.randrange(1 << 16), 'two_entries': two,
